@@ -83,10 +83,23 @@ structure AState where
   groups : List (Nat × List Seg)
 deriving DecidableEq, Repr
 
-/-- One iteration of the loop in `applyWALSegmentsV3`. NOTE: the index is compared with the
-expected one only when `Offset == 0` (replica.go:1279-1295) — a segment with a non-zero offset is
-appended to whatever WAL file is open as long as the offset equals the bytes written so far. -/
+/-- One iteration of the loop in `applyWALSegmentsV3` (replica.go). A segment with offset 0 opens
+the next WAL file and must carry the expected index; a continuation segment must belong to the
+WAL file being rebuilt (`seg.Index == expectedIndex-1`, the repair of finding F10) and start at
+the bytes written so far. -/
 def applyStep (st : AState) (seg : Seg) : Except Err AState :=
+  if seg.offset = 0 then
+    if seg.index ≠ st.expected then .error .missingIndex
+    else .ok ⟨st.expected + 1, seg.size, (st.expected, [seg]) :: st.groups⟩
+  else if seg.index + 1 ≠ st.expected then .error .missingIndex
+  else if seg.offset ≠ st.offset then .error .missingSegment
+  else
+    match st.groups with
+    | (i, ss) :: rest => .ok ⟨st.expected, st.offset + seg.size, (i, seg :: ss) :: rest⟩
+    | [] => .error .missingSegment   -- unreachable: a file is open whenever `index + 1 = expected` passed
+
+/-- The loop body before the repair of F10: the index was compared only when `Offset == 0`. -/
+def applyStepBeforeFix (st : AState) (seg : Seg) : Except Err AState :=
   if seg.offset = 0 then
     if seg.index ≠ st.expected then .error .missingIndex
     else .ok ⟨st.expected + 1, seg.size, (st.expected, [seg]) :: st.groups⟩
@@ -94,7 +107,14 @@ def applyStep (st : AState) (seg : Seg) : Except Err AState :=
   else
     match st.groups with
     | (i, ss) :: rest => .ok ⟨st.expected, st.offset + seg.size, (i, seg :: ss) :: rest⟩
-    | [] => .error .missingSegment   -- unreachable: `offset` is 0 until a file is open
+    | [] => .error .missingSegment
+
+def applyLoopBeforeFix (st : AState) : List Seg → Except Err AState
+  | [] => .ok st
+  | s :: rest =>
+    match applyStepBeforeFix st s with
+    | .error e => .error e
+    | .ok st' => applyLoopBeforeFix st' rest
 
 def applyLoop (st : AState) : List Seg → Except Err AState
   | [] => .ok st
